@@ -34,6 +34,8 @@ type Case struct {
 	// Via: "" = the response function is drained directly; "mixed" / "sse" = through gqlgen's
 	// multipart/mixed or SSE transport (what a client applying payloads in arrival order sees)
 	Via string `json:"via,omitempty"`
+	// Presenter: the server has an error presenter of its own (it marks every error it presents)
+	Presenter bool `json:"presenter,omitempty"`
 }
 
 var (
@@ -139,7 +141,9 @@ func Check(c Case) *vfrun.Failure {
 				ch <- res{out, rej}
 				return
 			}
+			s.MarkErrors = c.Presenter
 			out, rej := s.DoAll(ctx, e, c.Query, c.OpName, c.Variables, 500)
+			s.MarkErrors = false
 			ch <- res{out, rej}
 		}()
 		var r res
@@ -173,6 +177,17 @@ func Check(c Case) *vfrun.Failure {
 		}
 		if len(r.out) == 0 {
 			return vfrun.Failf("defer.no-payload", "[%s] no payload at all", s.P.Vec)
+		}
+		if c.Presenter {
+			// the plain execution presents every error; so must every payload
+			for i, pl := range r.out {
+				for _, ge := range pl.Errors {
+					if !proj.Presented(ge) {
+						return vfrun.Failf("defer.error-not-presented", "[%s] payload #%d reports %q at %s without the mark of the server's error presenter (the plain execution presents every error)", s.P.Vec, i, ge.Message, ge.Path.String())
+					}
+				}
+			}
+			vfrun.Label("user-error-presenter")
 		}
 		// --- merge in arrival order
 		merged, perr := strictjson.Parse(r.out[0].Data)
@@ -461,5 +476,6 @@ func Gen(t *rapid.T) Case {
 	c.SchedMode = rapid.SampledFrom([]string{"", "yield", "delay", "reverse", "mixed"}).Draw(t, "sched")
 	c.SchedSeed = rapid.Uint64Range(1, 1<<20).Draw(t, "schedseed")
 	c.Via = rapid.SampledFrom([]string{"", "", "mixed", "sse"}).Draw(t, "via")
+	c.Presenter = rapid.IntRange(0, 2).Draw(t, "presenter") == 0
 	return c
 }
